@@ -48,7 +48,7 @@ fn checker() -> Checker<toml::value::Value> {
     Checker::new(config, meta_std()).unwrap()
 }
 
-const TEMPLATES: [&str; 22] = [
+const TEMPLATES: [&str; 24] = [
     "local t, i, x = {}, 1, 2\nt[i] = x\nx = t[i]\n",
     "local a, c = {}, {}\na.b = c.d\nc.d = a.b\n",
     "local t, i = {}, 1\nold(t[i], -1)\nprint(t[i].x == 0/0, t[i] ~= 0/0)\n",
@@ -71,6 +71,8 @@ const TEMPLATES: [&str; 22] = [
     "local s = \"\\m\"\nprint(s)  print(s)\n",
     "print(string.rev(\"a\"), math.clamp(1, 0, 2))\nstring.nope(1)\n",
     "_G.foo = 1\n_G.bar, _G.foo = 2, 3\nprint(_G.foo)\n",
+    "local t = { [1] = 1, [1] = 2, 3, [2] = 4, [0x10] = 5, [16] = 6, [\"k\"] = 7, k = 8 }\nprint(t)\n",
+    "local function f(a, b) return a end\nf(1, 2, 3)\nlocal t = { f = f }\nt.f(1, 2, 3)\nmath.max(1, 2)\nx0 = 1\n",
 ];
 
 pub fn fixtures() -> Vec<String> {
@@ -222,7 +224,7 @@ fn pick_program(r: &mut Rng, fx: &[String]) -> (String, &'static str) {
 }
 
 /// script variables that share a name with a library global (C14: the name must not matter)
-const LIBNAMED: [&str; 18] = [
+const LIBNAMED: [&str; 20] = [
     "local math = {}\nx, math.y = 1, 2\nprint(math)\n",
     "local function f(table)\n  y, table.z = 1, 2\n  return table\nend\nprint(f)\n",
     "local os = {}\n_G.q, os.clock = 1, 2\nprint(os)\n",
@@ -244,6 +246,17 @@ const LIBNAMED: [&str; 18] = [
     // a script binding spelled like a library root, the library's own entry used outside its scope
     "local function size(table)\n  return #table\nend\nprint(table.getn({}), size)\nold(1)\n",
     "local function check(x)\n  local function assert(cond)\n    return cond\n  end\n  return assert(x)\nend\nassert(check(1), \"msg\")\nlocal function old(a) return a end\nprint(old(1, 2))\n",
+    // a script variable used as a computed key next to fields spelled like it
+    "local kind = \"size\"\nlocal defaults = {\n    kind = \"box\",\n    [kind] = 10,\n}\nprint(defaults, { [kind] = 1, [kind] = 2 }, { kind = 1, [\"kind\"] = 2 })\n",
+    "local a, b = 1, 2\nlocal t = { a = 1, [a] = 2, b = 3, [b] = 4, [a] = 5 }\nprint(t.a, t.b, t[a], t[b])\n",
+];
+
+/// programs linted with the Luau library (table.clone exists): loop variables spelled like the fields they sit next to
+const LUAU_NAMED: [&str; 4] = [
+    "local function lastSeen(source)\n    local seen = {}\n    for key, value in pairs(source) do\n        seen.key = value\n    end\n    return seen\nend\nreturn lastSeen\n",
+    "local function copy(source)\n    local out = {}\n    for key, value in pairs(source) do\n        out[key] = value\n    end\n    return out\nend\nreturn copy\n",
+    "local out = {}\nfor i, v in ipairs(list) do\n  out[i] = v\nend\nprint(out.i, out.v)\n",
+    "local function index(list)\n    local byName = {}\n    for i, v in ipairs(list) do\n        byName.v = i\n        byName.i = v\n    end\n    return byName\nend\nreturn index\n",
 ];
 
 const RESERVED: [&str; 12] = ["self", "_G", "_", "type", "typeof", "require", "game", "script", "workspace", "plugin", "shared", "_ENV"];
@@ -251,14 +264,18 @@ const RESERVED: [&str; 12] = ["self", "_G", "_", "type", "typeof", "require", "g
 pub fn generate_c14(seed: u64, n: usize, _thorough: bool) -> Cases {
     let mut cases = Cases::new("C14");
     let mut rng = Rng::new(seed);
-    let ck = checker();
+    let ck_lua51 = checker();
+    let ck_luau: Checker<toml::value::Value> = Checker::new(CheckerConfig::default(), StandardLibrary::from_name("luau").unwrap()).unwrap();
     let fx = fixtures();
     let lib = meta_std();
     let in_lib = |name: &str| lib.globals.keys().any(|k| k.split('.').any(|seg| seg == name));
     for i in 0..n {
         let mut r = rng.fork(i as u64);
-        let (src, origin) = if r.chance(1, 6) { ((*r.pick(&LIBNAMED)).to_string(), "library-named") } else { pick_program(&mut r, &fx) };
-        let (ast, ds) = match lint(&ck, &src) { Some(x) => x, None => continue };
+        let (src, origin) = if r.chance(1, 6) { ((*r.pick(&LIBNAMED)).to_string(), "library-named") }
+            else if r.chance(1, 8) { ((*r.pick(&LUAU_NAMED)).to_string(), "luau-library") }
+            else { pick_program(&mut r, &fx) };
+        let ck = if origin == "luau-library" { &ck_luau } else { &ck_lua51 };
+        let (ast, ds) = match lint(ck, &src) { Some(x) => x, None => continue };
         let (toks, decl_starts) = var_tokens_decls(&ast);
         // script-introduced names: declared as a variable somewhere (scope analysis), not reserved / library / ignored
         let ctx = selene_lib::lints::AstContext::from_ast(&ast);
@@ -310,7 +327,7 @@ pub fn generate_c14(seed: u64, n: usize, _thorough: bool) -> Cases {
             }
         }
         twin.push_str(&src[last..]);
-        let (ast2, ds2) = match lint(&ck, &twin) { Some(x) => x, None => continue };
+        let (ast2, ds2) = match lint(ck, &twin) { Some(x) => x, None => continue };
         let delta = fresh.len() - name.len();
         let (c1, c2) = (astdump::chunk(&ast), astdump::chunk(&ast2));
         let ast_terms = match (c1, c2) {
@@ -338,8 +355,14 @@ pub fn generate_c13(seed: u64, n: usize, _thorough: bool) -> Cases {
     let ck = checker();
     let fx = fixtures();
     // systematic: every template x every token x {space, block comment} after the token
-    let ck_roblox: Checker<toml::value::Value> = Checker::new(CheckerConfig::default(), StandardLibrary::roblox_base()).unwrap();
-    const ROBLOX_TEMPLATES: [&str; 12] = [
+    // roblox_base plus what the generated Roblox library would add for the element lints: classes and the Roact / React roots
+    let mut roblox_lib: StandardLibrary = serde_yaml::from_str(
+        "name: roblox\nglobals:\n  Roact:\n    any: true\n  React:\n    any: true\nroblox_classes:\n  Frame:\n    superclass: GuiObject\n    properties: []\n    events: []\n  GuiObject:\n    superclass: Instance\n    properties:\n      - Size\n    events:\n      - InputBegan\n  Instance:\n    superclass: \"<<<ROOT>>>\"\n    properties:\n      - Name\n    events: []\n").unwrap();
+    roblox_lib.extend(StandardLibrary::roblox_base());
+    let ck_roblox: Checker<toml::value::Value> = Checker::new(CheckerConfig::default(), roblox_lib).unwrap();
+    const ROBLOX_TEMPLATES: [&str; 14] = [
+        "local e = Roact.createElement\nlocal function Panel()\n\treturn e(\"Frame\", {\n\t\tSize = UDim2.new(1, 0, 1, 0),\n\t\tColour = \"red\",\n\t})\nend\nprint(Panel)\n",
+        "local function Row()\n\treturn React.createElement(\"Frame\", {\n\t\tWidht = 10,\n\t})\nend\nprint(Row, Roact.createElement(\"Frame\", { Nme = 1 }))\n",
         "local u = UDim2.new(-1, 0, -1, 0)\nprint(u)\n",
         "local c = Color3.new(-1, 2.5, t[1])\nprint(c)\n",
         "local u = UDim2.new(0, -5, 0, (5))\nprint(u)\n",
